@@ -38,6 +38,25 @@ class AbortRules(Exception):
     """Raised by Context.need after recording the violation."""
 
 
+class _Section:
+    def __init__(self, ctx, title):
+        self.ctx, self.title = ctx, title
+
+    def __enter__(self):
+        return self
+
+    def __exit__(self, et, ev, tb):
+        if et is None:
+            return False
+        if issubclass(et, AbortRules):
+            self.ctx.aborted.append(self.title)
+            return True
+        if issubclass(et, NameError) and self.ctx.aborted:
+            self.ctx.aborted.append(self.title + ' (depends on an abandoned group)')
+            return True
+        return False
+
+
 class Context:
     """Handed to every rule: the program model plus obligation bookkeeping."""
 
@@ -55,6 +74,15 @@ class Context:
         self._flows: dict[str, object] = {}
         self._cfgs: dict[str, object] = {}
         self._types: dict[tuple, object] = {}
+        self.aborted: list[str] = []
+
+    def section(self, title: str = ''):
+        """Group of rules that stands or falls together.  A `need` that fails inside the
+        group records its violation and abandons the rest of the group only; later groups
+        still run, so that rules which other properties adopt are produced whenever their own
+        anchors are intact.  A later group that depended on a name bound by an abandoned one
+        is abandoned too (NameError after an abort), never silently on an intact tree."""
+        return _Section(self, title)
 
     # ---- caches
     def flow(self, fi: FuncInfo):
